@@ -210,6 +210,7 @@ def execOp (chk : Bool) (tok : List String) : String :=
   | ["sign_fresh", _, _, _, _] => "skip"
   | ["sign_leaves", _, _, _, _] => "skip"
   | ["sign_stats", _, _, _, _] => "skip"
+  | ["sign_key_after_key", _, _] => "skip"
   | ["cplx_fft", a] => cfmt (FftFlt.fft (cparse a))
   | ["cplx_ifft", a] => cfmt (FftFlt.ifft (cparse a))
   | ["cplx_roundtrip", a] => cfmt (FftFlt.ifft (FftFlt.fft (cparse a)))
